@@ -12,6 +12,7 @@ import (
 	"regexp"
 	"runtime/debug"
 	"strings"
+	"sync"
 	"time"
 
 	"verif/lib/harness"
@@ -59,7 +60,7 @@ func topRepoFrame(stack string) string {
 }
 
 // runOne runs the pipeline on one input, recovering panics.
-func runOne(ctx context.Context, src string) (ev childEvent) {
+func runOne(ctx context.Context, env *hostEnv, src string) (ev childEvent) {
 	ev.Ev = "end"
 	defer func() {
 		if r := recover(); r != nil {
@@ -68,7 +69,7 @@ func runOne(ctx context.Context, src string) (ev childEvent) {
 			ev.Frame = topRepoFrame(string(debug.Stack()))
 		}
 	}()
-	b := build(ctx, src, false)
+	b := build(ctx, env, src)
 	defer b.Close(ctx)
 	ev.Stage = b.stage.String()
 	ev.Msg = firstLine(b.diag)
@@ -93,10 +94,11 @@ func childMain() {
 	w := bufio.NewWriter(os.Stdout)
 	enc := json.NewEncoder(w)
 	ctx := context.Background()
+	env := newHostEnv(ctx)
 	for i := from; i < len(batch.Inputs); i++ {
 		_ = enc.Encode(childEvent{I: i, Ev: "begin"})
 		w.Flush()
-		ev := runOne(ctx, batch.Inputs[i])
+		ev := runOne(ctx, env, batch.Inputs[i])
 		ev.I = i
 		_ = enc.Encode(ev)
 		w.Flush()
@@ -250,7 +252,7 @@ func crashInput(r *prng.R, thorough bool) (string, string) {
 	default:
 		sizes := []int{10, 60, 200, 600}
 		if thorough {
-			sizes = append(sizes, 2000, 6000)
+			sizes = append(sizes, 2000)
 		}
 		return shaped(r, sizes[r.Intn(len(sizes))]), "shaped"
 	}
@@ -313,69 +315,96 @@ func layerCrash(h *harness.H) {
 	batches := (total + crashBatchSize - 1) / crashBatchSize
 	dir := replayDir(h)
 	ctx := context.Background()
+	workers := 8
+	if _, replaying := h.Replaying(); replaying {
+		workers = 1
+	}
+	sem := make(chan struct{}, workers)
+	var wg sync.WaitGroup
+	var pmu sync.Mutex
+	var problems []string
 	for bn := 0; bn < batches; bn++ {
 		if h.Skip("crash", bn) {
 			continue
 		}
-		r := h.Rand("crash", bn)
-		var batch crashBatch
-		kinds := make([]string, 0, crashBatchSize)
-		for i := 0; i < crashBatchSize && bn*crashBatchSize+i < total; i++ {
-			in, kind := crashInput(r, h.Thorough())
-			batch.Inputs = append(batch.Inputs, in)
-			kinds = append(kinds, kind)
-		}
-		h.Evals(len(batch.Inputs))
-		path := filepath.Join(dir, fmt.Sprintf("crash-batch-s%d-b%d.json", h.Seed(), bn))
-		raw, _ := json.Marshal(batch)
-		if err := os.WriteFile(path, raw, 0o644); err != nil {
-			panic(err)
-		}
-		keep := false
-		from := 0
-		for from < len(batch.Inputs) {
-			events, stderr, timedOut := runChild(path, from)
-			last := from - 1
-			begun := -1
-			for _, ev := range events {
-				if ev.Ev == "begin" {
-					begun = ev.I
-					continue
-				}
-				last = ev.I
-				begun = -1
-				if judgeCrashEvent(ctx, h, bn, ev, batch.Inputs[ev.I], kinds[ev.I]) {
-					keep = true
-				}
+		wg.Add(1)
+		sem <- struct{}{}
+		go func(bn int) {
+			defer wg.Done()
+			defer func() { <-sem }()
+			if p := crashBatchRun(ctx, h, dir, bn, total); p != "" {
+				pmu.Lock()
+				problems = append(problems, p)
+				pmu.Unlock()
 			}
-			if begun >= 0 {
-				// the child died (or hung) while this input was in flight
-				in := batch.Inputs[begun]
-				if timedOut {
-					h.Inconclusive("crash-child-watchdog")
-					fmt.Printf("NOTE: child watchdog fired on input %d of batch %d (%s, %d bytes)\n", begun, bn, kinds[begun], len(in))
-				} else {
-					sig := "c19:crash:fatal:" + normMsg(fatalLine(stderr))
-					h.Violation("crash", bn, sig, fmt.Sprintf("child process died while running the pipeline on a %s input (%d bytes): %s", kinds[begun], len(in), fatalLine(stderr)),
-						map[string]any{"input": in, "kind": kinds[begun], "stderr_head": head(stderr, 2000), "batch_file": path, "index": begun})
-				}
-				keep = true
-				from = begun + 1
+		}(bn)
+	}
+	wg.Wait()
+	if len(problems) > 0 {
+		panic(strings.Join(problems, " || "))
+	}
+}
+
+// crashBatchRun generates batch bn, runs it in child processes and judges the events.
+// Returns a non-empty string when the monitor itself is broken.
+func crashBatchRun(ctx context.Context, h *harness.H, dir string, bn, total int) string {
+	env := newHostEnv(ctx)
+	defer env.Close(ctx)
+	r := h.Rand("crash", bn)
+	var batch crashBatch
+	kinds := make([]string, 0, crashBatchSize)
+	for i := 0; i < crashBatchSize && bn*crashBatchSize+i < total; i++ {
+		in, kind := crashInput(r, h.Thorough())
+		batch.Inputs = append(batch.Inputs, in)
+		kinds = append(kinds, kind)
+	}
+	h.Evals(len(batch.Inputs))
+	path := filepath.Join(dir, fmt.Sprintf("crash-batch-s%d-b%d.json", h.Seed(), bn))
+	raw, _ := json.Marshal(batch)
+	if err := os.WriteFile(path, raw, 0o644); err != nil {
+		return err.Error()
+	}
+	keep := false
+	from := 0
+	for from < len(batch.Inputs) {
+		events, stderr, timedOut := runChild(path, from)
+		last := from - 1
+		begun := -1
+		for _, ev := range events {
+			if ev.Ev == "begin" {
+				begun = ev.I
 				continue
 			}
-			if last+1 < len(batch.Inputs) && !timedOut {
-				// child exited early without an input in flight: harness problem
-				panic(fmt.Sprintf("crash child stopped after input %d without dying in one: %s", last, head(stderr, 500)))
+			last = ev.I
+			begun = -1
+			if judgeCrashEvent(ctx, env, h, bn, ev, batch.Inputs[ev.I], kinds[ev.I]) {
+				keep = true
 			}
-			from = last + 1
+		}
+		if begun >= 0 {
+			// the child died (or hung) while this input was in flight
+			in := batch.Inputs[begun]
 			if timedOut {
-				from = last + 2
+				h.Inconclusive("crash-child-watchdog")
+				fmt.Printf("NOTE: child watchdog fired on input %d of batch %d (%s, %d bytes)\n", begun, bn, kinds[begun], len(in))
+			} else {
+				sig := "c19:crash:fatal:" + normMsg(fatalLine(stderr))
+				h.Violation("crash", bn, sig, fmt.Sprintf("child process died while running the pipeline on a %s input (%d bytes): %s", kinds[begun], len(in), fatalLine(stderr)),
+					map[string]any{"input": in, "kind": kinds[begun], "stderr_head": head(stderr, 2000), "batch_file": path, "index": begun})
 			}
+			keep = true
+			from = begun + 1
+			continue
 		}
-		if !keep {
-			_ = os.Remove(path)
+		if last+1 < len(batch.Inputs) {
+			return fmt.Sprintf("crash child stopped after input %d of batch %d without dying in one: %s", last, bn, head(stderr, 500))
 		}
+		from = last + 1
 	}
+	if !keep {
+		_ = os.Remove(path)
+	}
+	return ""
 }
 
 func head(s string, n int) string {
@@ -395,7 +424,7 @@ func fatalLine(stderr string) string {
 }
 
 func runChild(path string, from int) (events []childEvent, stderr string, timedOut bool) {
-	ctx, cancel := context.WithTimeout(context.Background(), 240*time.Second)
+	ctx, cancel := context.WithTimeout(context.Background(), 900*time.Second)
 	defer cancel()
 	cmd := exec.CommandContext(ctx, os.Args[0])
 	cmd.Env = append(os.Environ(), "C19_CHILD="+path, fmt.Sprintf("C19_CHILD_FROM=%d", from))
@@ -416,7 +445,7 @@ func runChild(path string, from int) (events []childEvent, stderr string, timedO
 }
 
 // judgeCrashEvent returns true when a violation was filed.
-func judgeCrashEvent(ctx context.Context, h *harness.H, bn int, ev childEvent, in, kind string) bool {
+func judgeCrashEvent(ctx context.Context, env *hostEnv, h *harness.H, bn int, ev childEvent, in, kind string) bool {
 	h.Count("crash_inputs_"+kind, 1)
 	if strings.TrimSpace(in) != "" {
 		h.Distinct("crash:" + in)
@@ -424,11 +453,11 @@ func judgeCrashEvent(ctx context.Context, h *harness.H, bn int, ev childEvent, i
 	switch {
 	case ev.Panic:
 		toks := ddminText(tokenize(in), func(t []string) bool {
-			e := runOne(ctx, strings.Join(t, " "))
+			e := runOne(ctx, env, strings.Join(t, " "))
 			return e.Panic && e.Frame == ev.Frame
 		}, 150)
 		min := strings.Join(toks, " ")
-		if e := runOne(ctx, min); !(e.Panic && e.Frame == ev.Frame) {
+		if e := runOne(ctx, env, min); !(e.Panic && e.Frame == ev.Frame) {
 			min = in
 		}
 		h.Violation("crash", bn, "c19:crash:panic:"+ev.Frame+":"+normMsg(ev.Msg),
@@ -449,11 +478,11 @@ func judgeCrashEvent(ctx context.Context, h *harness.H, bn int, ev childEvent, i
 		h.Count("crash_accepted_but_failed", 1)
 		nm := normMsg(ev.Msg)
 		toks := ddminText(tokenize(in), func(t []string) bool {
-			e := runOne(ctx, strings.Join(t, " "))
+			e := runOne(ctx, env, strings.Join(t, " "))
 			return !e.Panic && e.Stage == ev.Stage && normMsg(e.Msg) == nm
 		}, 150)
 		min := strings.Join(toks, " ")
-		if e := runOne(ctx, min); e.Panic || e.Stage != ev.Stage || normMsg(e.Msg) != nm {
+		if e := runOne(ctx, env, min); e.Panic || e.Stage != ev.Stage || normMsg(e.Msg) != nm {
 			min = in
 		}
 		k := map[string]string{"compile": "compile-fails", "validate": "invalid-module", "instantiate": "instantiate-fails"}[ev.Stage]
